@@ -280,7 +280,15 @@ where
         let f = crate::c08::build_filter_and_verify::<K, W, D, S, E>(cx, cfg, &keys, bits)?;
         (ms(&f), bits)
     } else {
-        let values = Arc::new(gen_values::<W>(n, 3, val_bits));
+        // the value source is longer than the key source in half of the cases (legal: the crate's tests pass `0..`);
+        // the surplus values are larger than every used one and must not widen the cells
+        let mut values = gen_values::<W>(n, 3, val_bits);
+        let surplus = [0usize, 1, 0, 2][(cfg.seed % 4) as usize];
+        for _ in 0..surplus {
+            values.push(W::from64(u64::MAX));
+        }
+        cx.label_if(surplus > 0, "surplus_values");
+        let values = Arc::new(values);
         let klog = Arc::new(Mutex::new(Log::default()));
         let kl = K::lender(keys.clone(), Fault::None, klog);
         let vl = PlanLender::new(values.clone(), Fault::None, "values", Arc::new(Mutex::new(Log::default())));
@@ -288,7 +296,7 @@ where
             Ok(f) => f,
             Err(e) => return Err(Fail::mismatch("build.err", format!("build.err: {e:#}"))),
         };
-        let maxv = values.iter().map(|v| v.to64()).max().unwrap_or(0);
+        let maxv = values[..n].iter().map(|v| v.to64()).max().unwrap_or(0);
         let b = if is_bfv { ((64 - maxv.leading_zeros()) as usize).max(1) } else { W::WBITS as usize };
         (ms(&f), b)
     };
@@ -362,7 +370,7 @@ impl Property for C11 {
             m => {
                 let row = u.int_in_range(0u8..=N_ROWS - 1).unwrap_or(0);
                 let n = if m == 6 {
-                    [100_000usize, 100_001, 150_000, 250_000, 99_999, 420_000][u.int_in_range(0usize..=5).unwrap_or(0)]
+                    [100_000usize, 100_001, 150_000, 250_000, 99_999, 420_000, 131_072][u.int_in_range(0usize..=6).unwrap_or(0)]
                 } else {
                     match u.int_in_range(0u8..=3).unwrap_or(2) {
                         0 => u.int_in_range(0usize..=200).unwrap_or(10),
